@@ -796,6 +796,29 @@ Definition is_child (fuel : nat) (w child : positive) : M bool :=
   c <- getw w ;; is_child_from fuel (w_first c) child.
 Definition window_ref (w : positive) : M unit := upd w (fun c => set_ref c (w_ref c + 1)).
 
+(* _handle_mouse_at: for(w = win->parent; w; w = w->parent) n++;  then the same walk again with
+   held[i++] = tickit_window_ref(w);  afterwards for(i = 0; i < n; i++) tickit_window_unref(held[i]) *)
+Fixpoint count_up (fuel : nat) (w : ptr) : M unit :=
+  match fuel with
+  | O => nofuel
+  | S f => match w with None => ret tt | Some a => c <- getw a ;; count_up f (w_parent c) end
+  end.
+Fixpoint ref_up (fuel : nat) (w : ptr) : M (list positive) :=
+  match fuel with
+  | O => nofuel
+  | S f =>
+    match w with
+    | None => ret []
+    | Some a => window_ref a ;;; c <- getw a ;; l <- ref_up f (w_parent c) ;; ret (a :: l)
+    end
+  end.
+
+Fixpoint unref_list (fuel : nat) (l : list positive) : M unit :=
+  match l with
+  | [] => ret tt
+  | a :: l' => unref fuel a ;;; unref_list fuel l'
+  end.
+
 Definition root_bound : M bool := fun h => Ok (PM.mem 1%positive (wins h)) h.
 
 Definition handler_fires_mouse (h : handler) (t : mtype) : bool :=
@@ -1026,7 +1049,14 @@ with on_term_mouse (fuel : nat) (t : mtype) {struct fuel} : M unit :=
          handle_mouse f root MDragDrop true false ;;;
          r1 <- getr root ;;
          (match r_drag r1 with
-          | Some (Some d) => abs_geometry f d ;;; handle_mouse f d MDragStop true false ;;; ret tt
+          | Some (Some d) =>
+            abs_geometry f d ;;;
+            if v_events_asis V then handle_mouse f d MDragStop true false ;;; ret tt
+            else                                                  (* _handle_mouse_at *)
+              cd <- getw d ;; count_up f (w_parent cd) ;;;
+              cd' <- getw d ;; held <- ref_up f (w_parent cd') ;;
+              handle_mouse f d MDragStop true false ;;;
+              unref_list f held
           | Some None => ret tt
           | None => note_uninit
           end) ;;;
@@ -1041,7 +1071,14 @@ with on_term_mouse (fuel : nat) (t : mtype) {struct fuel} : M unit :=
        match r_drag r2 with
        | Some (Some d) =>
          if negb (ptr_eqb handled (Some d))
-         then abs_geometry f d ;;; handle_mouse f d MDragOutside true false ;;; ret tt
+         then
+           abs_geometry f d ;;;
+           if v_events_asis V then handle_mouse f d MDragOutside true false ;;; ret tt
+           else                                                   (* _handle_mouse_at *)
+             cd <- getw d ;; count_up f (w_parent cd) ;;;
+             cd' <- getw d ;; held <- ref_up f (w_parent cd') ;;
+             handle_mouse f d MDragOutside true false ;;;
+             unref_list f held
          else ret tt
        | _ => ret tt
        end
